@@ -82,7 +82,7 @@ Definition view_meta_topic (t : s_meta_topic) : topic_metadata :=
   mk_topic_metadata (smt_name t) (smt_error t)
     (dict_of Z.eqb (map (fun p => (smp_index p, view_meta_part (smt_name t) p)) (smt_parts t))).
 (* brokers: dict by node id; topics: dict by name; partitions: dict by partition id (later entries with the same
-   key replace earlier ones - with unique keys [dict_of] is the identity: RoundTripResp.dict_of_nodup) *)
+   key replace earlier ones - with unique keys [dict_of] is the identity: Proofs.RespC05.dict_of_nodup, theorem C05_metadata_unique_keys) *)
 Definition view_metadata (r : s_metadata) : list (Z * broker_metadata) * list (list Z * topic_metadata) :=
   (dict_of Z.eqb (map (fun b => (sb_node b, view_broker b)) (sm_brokers r)),
    dict_of zlist_eqb (map (fun t => (smt_name t, view_meta_topic t)) (sm_topics r))).
